@@ -19,8 +19,10 @@
      the proposal options of the three types as currently stored, the active validator list
      (address, power), the full validator list, the bounty and execution-cost addresses, and the
      ids whose configuration update function reports an error.  Theorems quantify over all envs.
-   * every handler is callable from any sender at any height; there is no signature or sender
-     check in the deliver path (DeliverTx does not call Validate).
+   * every handler is callable from any sender at any height.  Since /repo d276709 DeliverTx runs the kind's
+     Validate first (signatures, fee, OLT currency, address / id / opinion syntax); none of these checks looks at
+     the governance state, and the model's operations are the ones that pass them (a vote by a non-validator is
+     refused by Validate and by the handler alike).  Validate does NOT check the sign of a fund / withdraw amount.
    * Go [float64]: ResultSoFar compares yes/total and 1-no/total with pass/100 in float64; the
      model compares exactly ([yes*100 >= pass*total], [(total-no)*100 < pass*total]).  Exact for
      total power < 2^45 and [(total-no)*100 <> pass*total] (tally_float_guard).  The shares of the
@@ -311,6 +313,9 @@ Definition h_expire (s : state) (id : N) : hres :=
   match g_props s !! id with
   | Some p =>
       if negb (bool_decide (p_store p = SActive)) then None
+      (* /repo 0988205: only a proposal in its voting stage whose voting deadline has passed *)
+      else if negb (bool_decide (p_status p = StVoting)) then None
+      else if g_h s <=? p_vdl p then None
       else Some (set_prop s id (with_stage p SFailed StCompleted OInsufVotes), [])
   | None => None
   end.
@@ -445,6 +450,14 @@ Definition rank_of (s : state) (id : N) : nat :=
   match g_props s !! id with Some p => rank p | None => 0%nat end.
 
 (* ---- triggers of the known findings (Coq-defined predicates over the step input) ---- *)
-(* C14.public_expire_votes: EXPIRE_VOTES arrives as a public transaction *)
+(* EXPIRE_VOTES arrives as a public transaction (was the trigger of C14.public_expire_votes, fixed by /repo 0988205) *)
 Definition trig_public_expire (t : txop) : bool :=
   match t_op t with OExpire _ => true | _ => false end.
+
+(* C14.negative_fund_amount: a contribution / withdrawal with a negative amount (Validate checks the currency, not the sign) *)
+Definition trig_negative_amount (t : txop) : bool :=
+  match t_op t with
+  | OFund _ _ a => a <? 0
+  | OWithdraw _ _ a _ => a <? 0
+  | _ => false
+  end.
